@@ -370,8 +370,76 @@ pub fn mentions_cache_error(v : &Verdict) -> bool
     }
 }
 
+/// C05 speaks of "every rule graph the tool accepts": graphs ruler must REJECT (dependency cycles at any depth,
+/// between siblings, through the goal or beside it; duplicate targets) are run too — under the serial and some
+/// random schedules build and clean must return (no deadlock, no panic), and the serial run is a correspondence
+/// case (the model says which sort error is reported).
+fn ill_formed_graphs(ctx : &Ctx, out : &mut Out)
+{
+    let mut rng = Rng::new(ctx.seed).fork(5150);
+    let mk = |t : &str, sources : Vec<&str>| RuleSpec{targets : vec![t.to_string()], sources : sources.iter().map(|s| s.to_string()).collect(), script : vec![format!("gen {} {}", t, sources.iter().map(|s| format!("@{}", s)).collect::<Vec<_>>().join(" "))], raw_command : None};
+    let mut shapes : Vec<(String, Vec<RuleSpec>)> = vec![
+        ("self-loop".to_string(), vec![mk("A", vec!["A", "a"])]),
+        ("two-cycle".to_string(), vec![mk("A", vec!["B"]), mk("B", vec!["A"])]),
+        ("sibling-cycle-below-top".to_string(), vec![mk("TOP", vec!["S1", "S2"]), mk("S1", vec!["S2", "a"]), mk("S2", vec!["S1", "a"])]),
+        ("sibling-cycle-deeper".to_string(), vec![mk("TOP", vec!["M", "a"]), mk("M", vec!["S1", "S2"]), mk("S1", vec!["S2"]), mk("S2", vec!["S1"])]),
+        ("three-cycle-below-top".to_string(), vec![mk("TOP", vec!["X", "Y", "Z"]), mk("X", vec!["Y"]), mk("Y", vec!["Z"]), mk("Z", vec!["X"])]),
+        ("cycle-beside-acyclic-part".to_string(), vec![mk("OK1", vec!["a"]), mk("OK2", vec!["OK1"]), mk("P", vec!["Q"]), mk("Q", vec!["P", "OK1"])]),
+        ("cycle-through-shared-child".to_string(), vec![mk("TOP", vec!["L", "R"]), mk("L", vec!["C"]), mk("R", vec!["C"]), mk("C", vec!["L"])]),
+    ];
+    let n_random = if ctx.thorough { 400 } else { 40 };
+    for i in 0..n_random
+    {
+        let mut r = rng.fork(i as u64);
+        let k = r.range(2, 6);
+        let names : Vec<String> = (0..k).map(|j| format!("T{}", j)).collect();
+        let mut rules = vec![];
+        for j in 0..k
+        {
+            let mut sources : Vec<&str> = vec![];
+            for _ in 0..r.range(1, 3) { let c = if r.chance(1, 5) { "a".to_string() } else { r.pick(&names).clone() }; let c : &str = if c == "a" { "a" } else { names.iter().find(|n| **n == c).unwrap().as_str() }; if !sources.contains(&c) { sources.push(c); } }
+            rules.push(mk(&names[j], sources));
+        }
+        r.shuffle(&mut rules);
+        shapes.push((format!("random-{}", i), rules));
+    }
+    for (name, rules) in shapes
+    {
+        let sc = Scenario{rules : rules, split_tokens : false};
+        if sc.well_formed() { out.count("ill-formed:random-graph-was-acyclic"); continue; }
+        out.count(&format!("ill-formed:{}", if name.starts_with("random") { "random" } else { name.as_str() }));
+        let driver = Driver::new(ClockMode::Fine, 1_000_000);
+        let mut prep : Vec<Op> = vec![];
+        for op in [Op::Write(RULES_PATH.to_string(), sc.render().into_bytes()), Op::Write("a".to_string(), b"X".to_vec())] { driver.user(&op); driver.tick(); prep.push(op); }
+        let targets : Vec<String> = sc.all_targets().into_iter().collect();
+        let mut ops : Vec<Op> = vec![Op::Build(None), Op::Clean(None)];
+        for t in targets.iter().take(3) { ops.push(Op::Build(Some(t.clone()))); }
+        for op in ops
+        {
+            let mut policies = vec![(Policy::Serial, "serial".to_string())];
+            for _ in 0..3 { let seed = rng.next_u64(); policies.push((Policy::Random(seed), format!("random({})", seed))); }
+            for (policy, pname) in policies
+            {
+                let d = driver.fork();
+                let inv = d.invoke(&op, policy);
+                out.count("schedules");
+                let replay = replay_json("sched", &prep, &op, &pname, &inv.choices);
+                if inv.deadlock { out.violation("C05:deadlock", format!("{}: all threads blocked: the rule threads wait for each other ({})", name, op.describe()), replay.clone()); }
+                if let Verdict::Panic(m) = &inv.verdict { out.violation("C05:panic", format!("{}: panicked: {}", name, m), replay.clone()); }
+                if !inv.panicked_tasks.is_empty() { out.violation("C05:thread-panic", format!("{}: worker threads {:?} panicked", name, inv.panicked_tasks), replay.clone()); }
+                if inv.trace.iter().any(|e| e.what.starts_with("send-fail") || e.what.starts_with("recv-fail")) { out.violation("C05:channel-error", format!("{}: a send or receive failed on a closed channel", name), replay.clone()); }
+            }
+            let mut all = prep.clone();
+            all.push(op.clone());
+            let (obs, _) = crate::suites::hist::run_fixed(out, "sched", false, 1_000_000, &all, true, &Policy::Serial, false);
+            out.case(world::show_history_case(false, 1_000_000, &all), sexp::list(obs), true);
+        }
+    }
+}
+
 pub fn schedules(ctx : &Ctx, out : &mut Out)
 {
+    ill_formed_graphs(ctx, out);
     // corpus: (history ...) cases whose last op is explored under schedules
     for (name, line) in world::corpus_cases("sched")
     {
